@@ -54,6 +54,9 @@ public:
   virtual Json describe() { return Json::object(); }
   // Ops that may not be removed by the shrinker.
   virtual bool removable(const Json &op) { (void)op; return true; }
+  // True when the code under test can really crash: confirmation, shrinking and replay then run
+  // every execution in a forked child, so a damaged process never judges the next plan.
+  virtual bool crashProne() { return false; }
 };
 
 // Plain POSIX I/O: the harness's own files must not go through the simulated file layer.
@@ -107,6 +110,7 @@ struct KnownFindings {
 // Shrinking.
 //---------------------------------------------------------------------------------------------
 struct ShrinkStats { int runs = 0; size_t fromOps = 0, toOps = 0; };
+inline Outcome executeIsolated(Harness &h, const Json &plan);
 
 inline std::vector<Json> genericSimplify(const Json &op) {
   std::vector<Json> out;
@@ -147,9 +151,10 @@ inline Json shrinkPlan(Harness &h, const Json &plan, const std::string &vclass, 
   auto expired = [&]() {
     return st.runs >= maxRuns || std::chrono::duration<double>(std::chrono::steady_clock::now() - t0).count() > maxSeconds;
   };
+  bool iso = h.crashProne();
   auto fails = [&](const Json &p) {
     st.runs++;
-    Outcome o = h.execute(p);
+    Outcome o = iso ? executeIsolated(h, p) : h.execute(p);
     return o.violated && o.vclass == vclass;
   };
   Json best = plan;
@@ -238,6 +243,18 @@ inline uint64_t runSeedFor(const DriverArgs &a, const Harness &h, uint64_t index
   return mix64(a.seed, hashStr(std::string(h.name()) + ":" + h.property), index);
 }
 
+inline Json outcomeToJson(const Outcome &o);
+inline Outcome outcomeFromJson(const Json &j) {
+  Outcome o;
+  o.violated = j.getBool("violated");
+  o.vclass = j.getStr("class"); o.detail = j.getStr("detail"); o.signature = j.getStr("signature");
+  o.note = j.getStr("note"); o.hash = j.getStr("hash");
+  return o;
+}
+// Execute a plan in a forked child and ship the outcome back.  A child that dies without reporting
+// is the outcome "crashed" (class crashed, signature crashed:hard).
+inline Outcome executeIsolated(Harness &h, const Json &plan);
+
 inline Json outcomeToJson(const Outcome &o) {
   Json j = Json::object();
   j["violated"] = o.violated;
@@ -245,6 +262,37 @@ inline Json outcomeToJson(const Outcome &o) {
   j["note"] = o.note;
   j["hash"] = o.hash;
   return j;
+}
+
+inline Outcome executeIsolated(Harness &h, const Json &plan) {
+  int p[2];
+  if (pipe(p) != 0) { perror("pipe"); _exit(2); }
+  std::fflush(stdout);
+  pid_t pid = fork();
+  if (pid < 0) { perror("fork"); _exit(2); }
+  if (pid == 0) {
+    close(p[0]);
+    g_log.reset(false);
+    Outcome o = h.execute(plan);
+    std::string js = outcomeToJson(o).dump();
+    size_t off = 0;
+    while (off < js.size()) { ssize_t n = ::write(p[1], js.data() + off, js.size() - off); if (n <= 0) break; off += (size_t)n; }
+    _exit(0);
+  }
+  close(p[1]);
+  std::string js;
+  char buf[4096];
+  ssize_t n;
+  while ((n = ::read(p[0], buf, sizeof buf)) > 0) js.append(buf, (size_t)n);
+  close(p[0]);
+  int status = 0;
+  waitpid(pid, &status, 0);
+  if (!js.empty()) { try { return outcomeFromJson(Json::parse(js)); } catch (...) {} }
+  Outcome o;
+  std::string why = WIFSIGNALED(status) ? "signal " + std::to_string(WTERMSIG(status)) : "exit " + std::to_string(WEXITSTATUS(status));
+  o.violate("crashed", "the process died (" + why + ") while executing the plan", "crashed:hard");
+  o.hash = "died:" + why;
+  return o;
 }
 
 // Replay a file in this process.  Returns 0 when no violation, 1 when the recorded violation
@@ -322,9 +370,10 @@ inline void workerLoop(Harness &h, const DriverArgs &a, int w, int W, uint64_t s
         v["known"] = true;
       } else if (gated < 2) {
         gated++;
-        // (1) same plan again in this process
+        // (1) same plan again (in a forked child when the code under test can crash)
+        bool iso = h.crashProne();
         g_log.reset(false);
-        Outcome o2 = h.execute(plan);
+        Outcome o2 = iso ? executeIsolated(h, plan) : h.execute(plan);
         if (!(o2.violated && o2.vclass == o.vclass && o2.hash == o.hash)) {
           v["nondet"] = true;
           v["second"] = outcomeToJson(o2);
@@ -334,8 +383,8 @@ inline void workerLoop(Harness &h, const DriverArgs &a, int w, int W, uint64_t s
           Json mat = h.materialise(plan);
           Json small = shrinkPlan(h, mat, o.vclass, st);
           g_log.reset(false);
-          Outcome os = h.execute(small);
-          if (!(os.violated && os.vclass == o.vclass)) { small = mat; g_log.reset(false); os = h.execute(small); }
+          Outcome os = iso ? executeIsolated(h, small) : h.execute(small);
+          if (!(os.violated && os.vclass == o.vclass)) { small = mat; g_log.reset(false); os = iso ? executeIsolated(h, small) : h.execute(small); }
           // (3) replay file
           Json rf = Json::object();
           rf["format"] = 1;
